@@ -1292,3 +1292,78 @@ func S18(rc *RC) {
 		rc.S.Ok("S18", fi.Key, pos, fmt.Sprintf("%d path(s), order = MakeDataOrder(ap.o, Transposed)", n))
 	}
 }
+
+// closureUnit finds a function-literal unit by key (parent$N).
+func closureUnit(rc *RC, key string) *load.FuncInfo {
+	for _, fi := range rc.P.Closures {
+		if fi.Key == key {
+			return fi
+		}
+	}
+	return nil
+}
+
+// S19: the converting constructor converts. AsFortran(backing) receives a row-major sequence
+// and must lay it out column-major: on every path of its option closure on which a backing is
+// given (and the tensor is a *Dense), the temporary is lazily transposed AND physically
+// transposed before its storage is copied back - no shape-dependent shortcut skips the move.
+func S19(rc *RC) {
+	rc.S.Declare("S19", "converting constructor: on every path of AsFortran's option closure with a non-nil backing the temporary tensor goes through T() and Transpose() before its storage is copied back into the tensor", 1)
+	var fi *load.FuncInfo
+	for _, c := range rc.P.Closures {
+		if strings.HasPrefix(c.Key, "tensor.AsFortran$") {
+			_, tree := sCanon(rc, c)
+			if strings.Contains(ir.Render(tree), ".Transpose()") || strings.Contains(ir.Render(tree), "copyArray(") {
+				fi = c
+				break
+			}
+		}
+	}
+	if fi == nil {
+		rc.S.Undec("S19", "tensor.AsFortran$closure", "-", "unresolved anchor: the option closure of AsFortran that moves the data was not found")
+		return
+	}
+	pos := rc.P.Pos(fi.Decl.Pos())
+	_, tree := sCanon(rc, fi)
+	paths, ok := ir.EnumPaths(tree, 5000)
+	if !ok {
+		rc.S.Undec("S19", fi.Key, pos, "too many paths")
+		return
+	}
+	var bad []string
+	n := 0
+	for _, p := range paths {
+		// paths that copy storage back into the tensor under construction
+		back := -1
+		for i, st := range p.Steps {
+			if strings.Contains(st.Head, "copyArray(%ts.arrPtr(), ") || strings.Contains(st.Head, "copyArray($t.arrPtr(), ") {
+				back = i
+			}
+		}
+		if back < 0 {
+			continue
+		}
+		n++
+		lazy, phys := false, false
+		for _, st := range p.Steps[:back] {
+			if regexp.MustCompile(`^%\w+\.T\(\)$`).MatchString(st.Head) || strings.Contains(st.Head, ".T()") {
+				lazy = true
+			}
+			if strings.Contains(st.Head, ".Transpose()") {
+				phys = true
+			}
+		}
+		if !lazy || !phys {
+			bad = append(bad, fmt.Sprintf("on the path [%s] the storage is copied back without the data having been moved (T: %v, Transpose: %v)", strings.Join(p.Guards, " && "), lazy, phys))
+		}
+	}
+	if n == 0 {
+		rc.S.Undec("S19", fi.Key, pos, "no path that copies the converted storage back was found")
+		return
+	}
+	if len(bad) > 0 {
+		rc.S.Viol("S19", fi.Key, pos, strings.Join(uniq(bad), "; ")).Sig = fmt.Sprintf("%d path(s) skip the move", len(uniq(bad)))
+	} else {
+		rc.S.Ok("S19", fi.Key, pos, fmt.Sprintf("%d converting path(s), each through T() and Transpose()", n))
+	}
+}
